@@ -25,7 +25,9 @@ def srcBlkViews : List (String × (Bool → Frag → Rd.R) × Codec × (Val → 
   ("McStateExtra", SrcBlk.McStateExtra, mcStateExtra, Blk.view_McStateExtra),
   ("ShardStateUnsplit", SrcBlk.ShardStateUnsplit, shardStateUnsplit, Blk.view_ShardStateUnsplit),
   ("McBlockExtra", SrcBlk.McBlockExtra, mcBlockExtra, Blk.view_McBlockExtra),
-  ("ShardState", SrcBlk.ShardState, shardState, Blk.view_ShardState)]
+  ("ShardState", SrcBlk.ShardState, shardState, Blk.view_ShardState),
+  ("AccountBlock", SrcBlk.AccountBlock, accountBlock, Blk.view_AccountBlock),
+  ("BlockExtra", SrcBlk.BlockExtra, blockExtra, Blk.view_BlockExtra)]
 
 /-- `tlbsrcblk <Class> <dag> <node>` → `ok <value json> <remaining bits> <remaining refs>` | `none` :
     the regenerated reader of the class run on that cell -/
